@@ -16,6 +16,7 @@ import FontVerif.Lemmas.NormalizeLemmas
 import FontVerif.Lemmas.DeltaLemmas
 import FontVerif.Lemmas.IvsLemmas
 import FontVerif.Lemmas.MetricsLemmas
+import FontVerif.Lemmas.DsimLemmas
 set_option linter.unusedVariables false
 namespace FontVerif.C11
 open FontVerif FontVerif.Tent
@@ -969,9 +970,38 @@ theorem delta_set_index_map_get (es bc : Nat) (hes : es = 1 ∨ es = 2 ∨ es = 
       entries[min gid (entries.length - 1)]? :=
   dsimGet_packed es bc hes hbc1 hbc2 entries hfit gid hne
 
+/-- **delta_set_index_map_roundtrip** (writer ∘ reader, write-fonts `DeltaSetIndexMap::from_iter` ⇄
+read-fonts `DeltaSetIndexMap::get`): for every non-empty list of `outer << 16 | inner` u32 entries,
+whatever entry format (`get_entry_format`: 1–16 inner bits, 1–4 bytes) and trailing-duplicate
+trimming `pack_map_data` chooses, `get(gid)` returns exactly `(outer, inner)` of entry
+`min(gid, len − 1)` of the original list — this is the index through which an HVAR delta is added. -/
+theorem delta_set_index_map_roundtrip (mapping : List Nat) (hne : mapping ≠ [])
+    (h32 : ∀ y ∈ mapping, y < 4294967296) (gid : Nat) :
+    dsimGet (packMap mapping).1 (packMap mapping).2.1 (packMap mapping).2.2 gid =
+      (mapping[min gid (mapping.length - 1)]?).map fun x => (x / 65536, x % 65536) :=
+  packMap_get mapping hne h32 gid
+
+example : dsimGet (packMap [0x10005, 0x20003, 0x20003]).1 (packMap [0x10005, 0x20003, 0x20003]).2.1
+    (packMap [0x10005, 0x20003, 0x20003]).2.2 7 = some (2, 3) := by
+  rw [delta_set_index_map_roundtrip _ (by simp) (by decide)]; decide
+
 /-- **implicit_index**: without an advance map the delta set is `(0, gid)`. -/
 theorem implicit_index (gid : Nat) (h : gid < 65536) : implicitIndex gid = (0, gid) := by
   unfold implicitIndex; rw [Nat.mod_eq_of_lt h]
+
+/-- **unscaled_apply_exact**: with `Size::unscaled()` (scale `0x10000·64`) `FixedScaleFactor::apply`
+returns the value itself as 16.16 — for every `|value| < 2¹⁵` (beyond that the 16.16 result wraps:
+known finding `C11-unscaled-metric-wraps-at-32768`). -/
+theorem unscaled_apply_exact (v : Int) (h : -32768 ≤ v ∧ v < 32768) :
+    applyScale 4194304 v = v * 65536 := by
+  unfold applyScale Fixed.mulDiv iabs wrapU64
+  by_cases hv : v < 0
+  · simp [hv]
+    unfold wrapI32; simp only []
+    split <;> split <;> omega
+  · simp [hv]
+    unfold wrapI32; simp only []
+    split <;> omega
 
 example : baseAdvance [(500, 10), (600, 20)] 5 = 600 := by decide
 example : baseLsb [(500, 10), (600, 20)] [7, 8, 9] 3 = 8 := by decide
